@@ -294,6 +294,30 @@ fn mesh_checks(mut cx: Ctx, v: Vec<Point3>, f: Vec<[u32; 3]>) -> Verdict {
             Err(m) => return Verdict::fail("C12/patch_boundary_points/panic", m),
         }
     }
+    // history on the object that has answered all of the above: a far-away copy of itself is appended; the patches and
+    // the edge structure must be those of the mesh as it now is (the original partition plus its shifted copy)
+    {
+        let mut hm = mesh;
+        let shift = engeom::Vector3::new(1.0e3, 2.0e3, -1.5e3);
+        let other_v: Vec<Point3> = v.iter().map(|p| p + shift).collect();
+        if let Ok(other) = guarded(|| Mesh::new(other_v, f.clone(), false)) {
+            if hm.append(&other).is_ok() {
+                cx.label("history_append");
+                let nf = f.len();
+                let patches = match guarded(|| hm.get_patches()) {
+                    Ok(p) => p,
+                    Err(m) => return Verdict::fail("C12/history/get_patches/panic", m),
+                };
+                let got: BTreeSet<BTreeSet<usize>> = patches.iter().map(|p| p.iter().cloned().collect()).collect();
+                let mut want = expect_patches.clone();
+                for p in &expect_patches {
+                    want.insert(p.iter().map(|i| i + nf).collect());
+                }
+                ensure!(got == want, "C12/history/get_patches/stale_after_append", "after appending a copy ({} faces now) the patches are {:?}, expected {:?}", 2 * nf, got, want);
+                ensure!(hm.faces().len() == 2 * nf, "C12/history/append_faces", "{} faces after appending {nf} to {nf}", hm.faces().len());
+            }
+        }
+    }
     let shared = topo.edge_faces.values().any(|l| l.len() >= 2);
     if shared && topo.boundary_edges > 0 {
         cx.nontrivial();
